@@ -1,6 +1,7 @@
 package stream
 
 import (
+	"bytes"
 	"encoding/binary"
 	"fmt"
 	"io"
@@ -15,17 +16,19 @@ func Read[T allowedGenericTypes](reader io.Reader) (result T, err error) {
 }
 
 func ReadBytes(reader io.Reader, length int) ([]byte, error) {
-	readBytes := make([]byte, length)
+	if length < 0 {
+		return nil, ierrors.Errorf("failed to read serialized bytes: negative size (%d)", length)
+	}
 
-	nBytes, err := reader.Read(readBytes)
-	if err != nil {
+	// An io.Reader may deliver fewer bytes per call than requested, so keep reading until length bytes
+	// arrived. The buffer grows with the data that actually arrives instead of being allocated up front,
+	// because length often stems from an untrusted length prefix.
+	var readBytes bytes.Buffer
+	if _, err := io.CopyN(&readBytes, reader, int64(length)); err != nil {
 		return nil, ierrors.Wrap(err, "failed to read serialized bytes")
 	}
-	if nBytes != length {
-		return nil, ierrors.Errorf("failed to read serialized bytes: read bytes (%d) != size (%d)", nBytes, length)
-	}
 
-	return readBytes, nil
+	return readBytes.Bytes(), nil
 }
 
 // ReadBytesWithSize reads a byte slice from the reader where lenType specifies the serialization length prefix type.
